@@ -9,7 +9,7 @@ import time
 import pcverif as V
 
 PROPS = {
-    "C01": dict(families="gating,gating,unsat,health,manual,shutdown,restart,exiton,gating,unsat,unsat",
+    "C01": dict(families="gating,gating,unsat,health,manual,shutdown,restart,exiton,gating,unsat,unsat,regate",
                 need=["launchWithDeps"], model=["PCLifecycle_gating.cfg"], model_thorough=["PCLifecycle_gating.cfg", "PCLifecycle_gating3.cfg"]),
     "C02": dict(families="restart,restart,restart,shutdown,health,manual,gating,restart,shutdown,daemon",
                 need=["relaunch", "backoff"], model=["PCLifecycle_restart.cfg"], model_thorough=["PCLifecycle_restart.cfg", "PCLifecycle_health.cfg"]),
